@@ -32,6 +32,15 @@
 (* What the body sees: with a dead context its context-bound statements    *)
 (* fail without reaching the database driver (why = "ctx").                *)
 (*                                                                         *)
+(* Two layers of "exactly one": `ccalls` / `rcalls` are the Commit / Rollback *)
+(* calls the manager makes on the transaction handle it holds (the session  *)
+(* layer), `commits` / `rollbacks` the ones that reach the database driver. *)
+(* A finished handle answers a further ending call by itself ("transaction  *)
+(* has already been committed or rolled back") without troubling the        *)
+(* driver, so the driver's count alone cannot tell one Rollback from two:   *)
+(* the statement's "exactly one Rollback" is required at both layers, and   *)
+(* no result may carry a finished handle's refusal (`late` is always 0).    *)
+(*                                                                         *)
 (* result classes: "nil" | "begin" | "commit" | "fn" | "nonnil" | "learn". *)
 (* `out` is observation only (VIEW core hides it).                         *)
 (***************************************************************************)
@@ -51,12 +60,14 @@ VARIABLES phase,      \* "idle" | "begin" | "body" | "end" | "ret"
           bend,       \* how the body ended: "none" | "nil" | "err" | "panic" | "skipped" (never run)
           commits,    \* Commit calls that reached the driver during this call
           rollbacks,  \* Rollback calls that reached the driver during this call
+          ccalls,     \* Commit calls the manager made on the transaction handle during this call
+          rcalls,     \* Rollback calls the manager made on the transaction handle during this call
           result,     \* result class of this call ("none" while running)
           ncalls,
           ctx,        \* context scenario of the running call
           out
 
-core == <<phase, tx, nst, faulted, bend, commits, rollbacks, result, ncalls, ctx>>
+core == <<phase, tx, nst, faulted, bend, commits, rollbacks, ccalls, rcalls, result, ncalls, ctx>>
 vars == <<core, out>>
 
 Phases  == {"idle", "begin", "body", "end", "ret"}
@@ -67,16 +78,20 @@ Results == {"none", "nil", "begin", "commit", "fn", "nonnil", "learn"}
 TypeOK ==
   /\ phase \in Phases /\ tx \in TxSt /\ nst \in 0..MaxStmts /\ faulted \in BOOLEAN
   /\ bend \in Ends \cup {"none", "skipped"} /\ commits \in 0..2 /\ rollbacks \in 0..2
+  /\ ccalls \in 0..2 /\ rcalls \in 0..2
   /\ result \in Results /\ ncalls \in 0..MaxCalls
   /\ ctx \in {"live", "cancelled", "expired", "bodycancel"}
 
 Init ==
   /\ phase = "idle" /\ tx = "none" /\ nst = 0 /\ faulted = FALSE /\ bend = "none"
-  /\ commits = 0 /\ rollbacks = 0 /\ result = "none" /\ ncalls = 0 /\ ctx = "live"
+  /\ commits = 0 /\ rollbacks = 0 /\ ccalls = 0 /\ rcalls = 0 /\ result = "none" /\ ncalls = 0 /\ ctx = "live"
   /\ out = [op |-> "init"]
 
 \* the context is already dead when the call is made (and stays so)
 DeadCtx == ctx \in {"cancelled", "expired"}
+
+\* ending calls made on a handle that was already finished (answered by the handle, not the driver)
+LateCalls == IF ccalls + rcalls > 1 THEN ccalls + rcalls - 1 ELSE 0
 
 (* ------------------------------------------------------------------ caller *)
 
@@ -86,7 +101,7 @@ Call(api, cx) ==
   /\ ctx' = cx
   /\ phase' = "begin" /\ ncalls' = ncalls + 1
   /\ tx' = "none" /\ nst' = 0 /\ faulted' = FALSE /\ bend' = "none"
-  /\ commits' = 0 /\ rollbacks' = 0 /\ result' = "none"
+  /\ commits' = 0 /\ rollbacks' = 0 /\ ccalls' = 0 /\ rcalls' = 0 /\ result' = "none"
   /\ out' = [op |-> "call", api |-> api, ctx |-> cx]
 
 \* the call returns (or re-raises): this is where the driver compares
@@ -94,8 +109,9 @@ Return ==
   /\ phase = "ret"
   /\ phase' = "idle"
   /\ out' = [op |-> "return", result |-> result, commits |-> commits, rollbacks |-> rollbacks,
+             ccalls |-> ccalls, rcalls |-> rcalls, late |-> LateCalls,
              begun |-> (tx # "none"), mayrefuse |-> DeadCtx]
-  /\ UNCHANGED <<tx, nst, faulted, bend, commits, rollbacks, result, ncalls, ctx>>
+  /\ UNCHANGED <<tx, nst, faulted, bend, commits, rollbacks, ccalls, rcalls, result, ncalls, ctx>>
 
 (* ------------------------------------------------------------------ driver: Begin *)
 
@@ -104,14 +120,14 @@ Begin(ok) ==
   /\ IF ok THEN /\ phase' = "body" /\ tx' = "open" /\ UNCHANGED result
            ELSE /\ phase' = "ret" /\ result' = "begin" /\ UNCHANGED tx
   /\ out' = [op |-> "begin", ok |-> ok]
-  /\ UNCHANGED <<nst, faulted, bend, commits, rollbacks, ncalls, ctx>>
+  /\ UNCHANGED <<nst, faulted, bend, commits, rollbacks, ccalls, rcalls, ncalls, ctx>>
 
 \* handed a dead context, the manager may decline before anything is begun
 Refuse ==
   /\ phase = "begin" /\ DeadCtx
   /\ phase' = "ret" /\ result' = "nonnil"
   /\ out' = [op |-> "refuse"]
-  /\ UNCHANGED <<tx, nst, faulted, bend, commits, rollbacks, ncalls, ctx>>
+  /\ UNCHANGED <<tx, nst, faulted, bend, commits, rollbacks, ccalls, rcalls, ncalls, ctx>>
 
 (* ------------------------------------------------------------------ the body *)
 
@@ -122,7 +138,7 @@ Stmt(kind, ok) ==
   /\ (DeadCtx => ~ok)
   /\ nst' = nst + 1 /\ faulted' = ~ok
   /\ out' = [op |-> "stmt", kind |-> kind, ok |-> ok, why |-> IF DeadCtx THEN "ctx" ELSE "driver"]
-  /\ UNCHANGED <<phase, tx, bend, commits, rollbacks, result, ncalls, ctx>>
+  /\ UNCHANGED <<phase, tx, bend, commits, rollbacks, ccalls, rcalls, result, ncalls, ctx>>
 
 \* the body ends: returns nil (possibly swallowing a statement error), returns an error
 \* (the failed statement's error if there was one, else its own), or panics
@@ -130,34 +146,34 @@ BodyEnd(e) ==
   /\ phase = "body"
   /\ phase' = "end" /\ bend' = e
   /\ out' = [op |-> "bodyend", how |-> e, cancel |-> (ctx = "bodycancel")]
-  /\ UNCHANGED <<tx, nst, faulted, commits, rollbacks, result, ncalls, ctx>>
+  /\ UNCHANGED <<tx, nst, faulted, commits, rollbacks, ccalls, rcalls, result, ncalls, ctx>>
 
 \* handed a dead context, the manager may also begin, not run the body at all and roll back
 SkipBody ==
   /\ phase = "body" /\ DeadCtx /\ nst = 0
   /\ phase' = "end" /\ bend' = "skipped"
   /\ out' = [op |-> "skipbody"]
-  /\ UNCHANGED <<tx, nst, faulted, commits, rollbacks, result, ncalls, ctx>>
+  /\ UNCHANGED <<tx, nst, faulted, commits, rollbacks, ccalls, rcalls, result, ncalls, ctx>>
 
 (* ------------------------------------------------------------------ manager + driver: the end *)
 
 Commit(ok) ==
   /\ phase = "end" /\ bend = "nil"
-  /\ commits' = commits + 1
+  /\ commits' = commits + 1 /\ ccalls' = ccalls + 1
   /\ tx' = IF ok THEN "committed" ELSE "commitfailed"
   /\ result' = IF ok THEN "nil" ELSE "commit"
   /\ phase' = "ret"
   /\ out' = [op |-> "commit", ok |-> ok]
-  /\ UNCHANGED <<nst, faulted, bend, rollbacks, ncalls, ctx>>
+  /\ UNCHANGED <<nst, faulted, bend, rollbacks, rcalls, ncalls, ctx>>
 
 Rollback(ok) ==
   /\ phase = "end" /\ bend \in {"err", "panic", "skipped"}
-  /\ rollbacks' = rollbacks + 1
+  /\ rollbacks' = rollbacks + 1 /\ rcalls' = rcalls + 1
   /\ tx' = IF ok THEN "rolledback" ELSE "rollbackfailed"
   /\ result' = IF bend = "panic" THEN "learn" ELSE IF bend = "skipped" THEN "nonnil" ELSE IF ok THEN "fn" ELSE "nonnil"
   /\ phase' = "ret"
   /\ out' = [op |-> "rollback", ok |-> ok]
-  /\ UNCHANGED <<nst, faulted, bend, commits, ncalls, ctx>>
+  /\ UNCHANGED <<nst, faulted, bend, commits, ccalls, ncalls, ctx>>
 
 \* everything but Refuse / SkipBody: the steps a behaviour script can prescribe (TxGen.tla)
 Scripted ==
@@ -195,6 +211,15 @@ OneEnding  == commits + rollbacks <= 1
 NoDangling == Returned => tx # "open"
 NoTxNoEnd  == tx = "none" => commits = 0 /\ rollbacks = 0
 
+\* the same at the session layer: the manager ends the handle it holds exactly once (a second
+\* Commit/Rollback on a finished handle never reaches the driver, but it is a second Rollback all
+\* the same), with the call the body's ending asks for; every such call is forwarded to the driver
+OneEndingCall ==
+  Returned => /\ ccalls + rcalls = (IF tx = "none" THEN 0 ELSE 1)
+              /\ LateCalls = 0
+              /\ (ccalls = 1 <=> (tx # "none" /\ bend = "nil"))
+CallsReachDriver == commits = ccalls /\ rollbacks = rcalls
+
 \* whatever the context: once a transaction has begun, a call that does not report success has
 \* rolled it back (or failed to commit it); in particular a begun transaction whose body never ran
 \* is not abandoned
@@ -205,8 +230,9 @@ FailureIsReported == Returned /\ bend \in {"err", "panic"} => result \in {"fn", 
 
 \* counters move only in the manager's ending step, by one
 EndsOnlyAtEnd ==
-  [][(commits' # commits \/ rollbacks' # rollbacks) =>
+  [][(commits' # commits \/ rollbacks' # rollbacks \/ ccalls' # ccalls \/ rcalls' # rcalls) =>
         \/ out'.op = "call"
-        \/ (phase = "end" /\ commits' + rollbacks' = commits + rollbacks + 1)]_vars
+        \/ (phase = "end" /\ commits' + rollbacks' = commits + rollbacks + 1
+                          /\ ccalls' + rcalls' = ccalls + rcalls + 1)]_vars
 
 =============================================================================
